@@ -53,6 +53,11 @@ def abort_after(entries, clk=1):
     return begin(clk) + list(entries) + [{'a': 'abort'}]
 
 
+def complete(script, beh):
+    """was the script evaluated to its end?  (an entry that is not enabled in the model ends a behaviour silently)"""
+    return bool(beh) and beh[-1]['state'].get('pc') == len(script) + 1
+
+
 # ---- rendering ------------------------------------------------------------------------------------------
 def _tla(v):
     if isinstance(v, bool):
